@@ -466,6 +466,114 @@ def warn_once_checks(seed, tier):
     return out
 
 
+def history_checks(seed, tier):
+    """History of ONE simulation object vs a FRESH simulation built from the same (synchronized) state: particles are removed
+    (by index: first / middle / last planet; by hash), added, or merged by a collision mid-run, for every integrator family with
+    safe_mode 0 and 1.  The continued object and the fresh one must give the same answer (to round-off for fixed-step schemes)
+    and the same accuracy against an IAS15 reference started from that state."""
+    import warnings as _w
+    rng = random.Random(seed ^ 0x515)
+    out = []
+    def build():
+        sim = rebound.Simulation()
+        sim.add(m=1.0)
+        a = 1.0
+        for k in range(4):
+            sim.add(m=10 ** rng.uniform(-5, -4), a=a, e=rng.uniform(0, 0.08), inc=rng.uniform(0, 0.05), omega=rng.uniform(0, 6.28), f=rng.uniform(0, 6.28), hash="p%d" % k)
+            a *= rng.uniform(1.6, 1.9)
+        sim.move_to_com()
+        return sim
+    def fresh_from(sim, pt, dt):
+        s2 = rebound.Simulation()
+        s2.G = sim.G; s2.t = sim.t
+        for p in sim.particles:
+            s2.add(m=p.m, x=p.x, y=p.y, z=p.z, vx=p.vx, vy=p.vy, vz=p.vz, r=p.r, hash=p.hash)
+        s2.collision = sim.collision
+        if sim.collision != "none":
+            s2.collision_resolve = "merge"
+        if pt is not None:
+            configure(s2, pt); s2.dt = dt
+        return s2
+    def diff(a, b):
+        if a.N != b.N:
+            return float("inf")
+        return max(max(abs(getattr(p, c) - getattr(q, c)) for c in ("x", "y", "z", "vx", "vy", "vz")) for p, q in zip(a.particles, b.particles))
+    fams = []
+    for sm in (0, 1):
+        fams += [("whfast/jacobi/safe%d" % sm, dict(integrator="whfast", safe_mode=sm)), ("whfast/dh/safe%d" % sm, dict(integrator="whfast", coordinates=1, safe_mode=sm)),
+                 ("whfast/c11/safe%d" % sm, dict(integrator="whfast", corrector=11, safe_mode=sm)), ("whfast/lazy/safe%d" % sm, dict(integrator="whfast", kernel=3, safe_mode=sm)),
+                 ("saba/0x6/safe%d" % sm, dict(integrator="saba", type=6, safe_mode=sm)), ("saba/0x101/safe%d" % sm, dict(integrator="saba", type=0x101, safe_mode=sm)),
+                 ("mercurius/safe%d" % sm, dict(integrator="mercurius", safe_mode=sm)), ("eos/safe%d" % sm, dict(integrator="eos", phi0=1, phi1=1, n=2, safe_mode=sm))]
+    fams += [("leapfrog", dict(integrator="leapfrog")), ("janus/4", dict(integrator="janus", order=4)), ("trace", dict(integrator="trace")),
+             ("ias15", dict(integrator="ias15")), ("bs", dict(integrator="bs"))]
+    def rm_index(i):
+        return lambda sim: sim.remove(index=i)
+    def rm_hash(sim):
+        sim.remove(hash="p1")
+    def add_one(sim):
+        sim.add(m=2e-5, a=9.5, e=0.02, f=1.0, hash="new")
+    def arm_merge(sim):
+        # give the closest pair of planets radii that just overlap (and touch nothing else): they merge in the next step
+        ps = sim.particles
+        dist = lambda p, q: math.sqrt((p.x - q.x) ** 2 + (p.y - q.y) ** 2 + (p.z - q.z) ** 2)
+        d, i, j = min((dist(ps[i], ps[j]), i, j) for i in range(1, sim.N) for j in range(i + 1, sim.N))
+        rr = 0.5005 * d
+        if any(dist(ps[k], ps[m]) <= rr for k in (i, j) for m in range(sim.N) if m not in (i, j)):
+            raise RuntimeError("skip: no isolated pair")
+        sim.collision = "direct"; sim.collision_resolve = "merge"
+        ps[i].r = rr; ps[j].r = rr
+    inter = [("remove index 1 (first planet)", rm_index(1)), ("remove index 2 (middle)", rm_index(2)), ("remove index 4 (last)", rm_index(4)),
+             ("remove by hash", rm_hash), ("add a particle", add_one), ("merging collision", arm_merge)]
+    dt = 0.02
+    with _w.catch_warnings():
+        _w.simplefilter("ignore")
+        for fname, pt in fams:
+            adaptive = pt["integrator"] in ("ias15", "bs")
+            for iname, act in inter:
+                # merging collision: only where the merge time is determined by the state alone: fixed-step schemes that are synchronized
+                # after every step (safe_mode 1).  Adaptive schemes detect the overlap after a history-dependent first step, MERCURIUS only
+                # searches inside its encounter set (depends on the cached dcrit), and with safe_mode 0 the library documents that
+                # particles must not change between steps (observed there: WHFast corrector 11 / SABA CM2 end in NaN after the merge).
+                if iname == "merging collision" and (adaptive or pt["integrator"] in ("mercurius", "trace") or pt.get("safe_mode") == 0):
+                    continue
+                try:
+                    a = build(); configure(a, pt); a.dt = dt
+                    if adaptive:
+                        a.integrate(7 * dt, exact_finish_time=1)
+                    else:
+                        a.steps(7)
+                    a.synchronize()
+                    act(a)
+                    b = fresh_from(a, pt, a.dt)
+                    ref = fresh_from(a, None, 0); ref.integrator = "ias15"
+                    if adaptive:
+                        a.integrate(a.t + 9 * dt, exact_finish_time=1); b.integrate(b.t + 9 * dt, exact_finish_time=1)
+                    else:
+                        a.steps(9); b.steps(9)
+                    a.synchronize(); b.synchronize()
+                    d1 = diff(a, b)
+                    n_after = a.N
+                    # third leg: again against a fresh object built from the state reached (covers removals done by the collision)
+                    c = fresh_from(a, pt, a.dt)
+                    c.collision = "none"; a.collision = "none"
+                    if adaptive:
+                        a.integrate(a.t + 5 * dt, exact_finish_time=1); c.integrate(c.t + 5 * dt, exact_finish_time=1)
+                    else:
+                        a.steps(5); c.steps(5)
+                    a.synchronize(); c.synchronize()
+                    d2 = diff(a, c)
+                    tol = 1e-9 if adaptive else 1e-11
+                    ok = d1 <= tol and d2 <= tol and abs(a.t - c.t) <= 1e-12 * max(1.0, abs(a.t)) and all(p.x == p.x for p in a.particles)
+                    out.append({"name": "history/%s/%s" % (fname, iname), "system_seed": seed, "errors": [d1, d2], "N_after": n_after, "ok": ok,
+                                "options": dict(pt, dt=dt, steps=[7, 9, 5])})
+                except RuntimeError as ex_:
+                    if "skip:" not in str(ex_):
+                        out.append({"name": "history/%s/%s" % (fname, iname), "system_seed": seed, "errors": [float("nan")], "ok": False, "exception": repr(ex_)})
+                except Exception as ex_:
+                    out.append({"name": "history/%s/%s" % (fname, iname), "system_seed": seed, "errors": [float("nan")], "ok": False, "exception": repr(ex_)})
+    return out
+
+
 def main():
     seed = int(sys.argv[1]); tier = sys.argv[2]
     only = sys.argv[3] if len(sys.argv) > 3 else None
@@ -512,7 +620,7 @@ def main():
                 if not ok:
                     failures.append(rec)
         if not only:
-            for a in adaptive_checks(ss, T0) + ode_checks(ss, tier) + warn_once_checks(ss, tier):
+            for a in adaptive_checks(ss, T0) + ode_checks(ss, tier) + warn_once_checks(ss, tier) + history_checks(ss, tier):
                 a["system_seed"] = ss
                 points.append(a)
                 if not a["ok"]:
